@@ -207,6 +207,10 @@ def gen_ops(ctx):
         tx, ty = dw // 2 - qx, dh // 2 - qy          # shift in destination coordinates = a translation applied FIRST
         ms = [[1, 0, 0, 1, int(-tx), int(-ty)]] + ms
         ops.append("resrt %s %d %d %d %d %d %s" % (vt, w, h, dw, dh, len(ms), " ".join(str(x) for m in ms for x in m)))
+        # the same unimodular product as a matrix3x2<long>: inverse (exact), point<long> * matrix
+        Pi = [int(x) for x in P]
+        ops.append("iop i %s 0 0 0 0 0 0" % " ".join(map(str, Pi)))
+        ops.append("iop p %s %d %d 0 0 0 0" % (" ".join(map(str, Pi)), r.range(-50, 50), r.range(-50, 50)))
     # --- matrix3x2<float>: product, compound product, self product, inverse, transform (binary32 replay)
     for i, a in enumerate(full[:60] if not th else full):
         b = full[(i * 5 + 1) % len(full)]
